@@ -54,6 +54,21 @@ def build(rng, tier):
                     b'POST /form-multipart-enctype-post-method HTTP/1.1\r\nContent-Type: multipart/form-data; boundary=B\r\n\r\n--B\r\nContent-Disposition: form-data; name="a"\r\n\r\n\xff\r\n--B--\r\n']:
             for entry in ('proc', 'preq'):
                 cases.append(K.mk(tree, '?', '?', entry=entry, raw=raw, kind='corpus'))
+        p0n = rng.choice(paths)
+        # client-supplied numbers at and around every machine-integer limit, in every place a handler or parser reads a number:
+        # query parameters of the built-in endpoints, Content-Length, Range bounds (arithmetic on them must not overflow)
+        LIMITS = [0, 1, 255, 256, 32767, 32768, 65535, 65536, 2**31 - 1, 2**31, 2**32 - 1, 2**32, 2**63 - 1, 2**63, 2**64 - 1, 2**64, 2**127 - 1, 2**127, 2**128 - 1, 2**128]
+        nums = sorted({str(v + d) for v in LIMITS for d in (-2, -1, 0, 1)} | {str(2**63 - 1 - k) for k in (5999, 6000, 9999, 10000, 3999, 4000)} |
+                      {'-' + str(v) for v in (1, 2**31, 2**63, 2**63 + 1, 2**127)} | {'+1', '1e3', '0x10', '00000000000000000000000000000001', '9' * 40, '', ' 1', '1.5', 'NaN'})
+        for nv in (nums if (tier != 'quick' or ti == 0) else []):
+            for field in ('size', 'lastModified', 'name'):
+                q = '&'.join(f'{k}={nv if k == field else "7"}' for k in ('name', 'lastModified', 'size'))
+                cases.append(K.mk(tree, 'POST', '/file-upload/initiate?' + q, [], entry=rng.choice(['proc', 'preq']), kind='numeric-limit-query'))
+            cases.append(K.mk(tree, 'GET', '/form-get-method?size=' + nv + '&n=' + nv, [], entry='proc', kind='numeric-limit-query'))
+            cases.append(K.mk(tree, 'POST', '/form-url-encoded-enctype-post-method', [('Content-Type', 'application/x-www-form-urlencoded'), ('Content-Length', nv)], entry=rng.choice(['proc', 'preq']), kind='numeric-limit-header'))
+            cases.append(K.mk(tree, 'GET', p0n, [('Range', f'bytes={nv}-')], entry='proc', kind='numeric-limit-header'))
+            cases.append(K.mk(tree, 'GET', p0n, [('Range', f'bytes=0-{nv}')], entry='proc', kind='numeric-limit-header'))
+            cases.append(K.mk(tree, 'GET', p0n, [('Range', f'bytes=-{nv}')], entry='proc', kind='numeric-limit-header'))
         # long targets / header values with a multi-byte character at every offset around the lengths a
         # logger or a fixed-size field would cut at (64, 128, 255, 256, 512, 1024)
         p0 = rng.choice(paths)
